@@ -275,6 +275,27 @@ def oracle(run, profile_all=True):
                 bad.append(("C04", "TimeoutError without a timeout"))
             if kind in ("attr",) or kind not in ("task", "iter", "timeout", "runtime"):
                 bad.append(("C04", "call died with an internal error: %s" % out))
+        # clean-up duties of a finished call: abort_everything exactly once for a call that ended by an exception or
+        # a close inside the retrieval loop (with ensure_ready = "inside a with block"), stop_call once per call,
+        # backend.terminate() once after the call iff the backend is not managed by a with block
+        if c["snaps"] and c["outcome"] is not None:
+            first, last = c["snaps"][0], c["snaps"][-1]
+            if not last["running"]:
+                started = first["start_calls"] > 0 or True
+                if last["stop_calls"] != last["start_calls"]:
+                    bad.append(("C04", "backend.stop_call() called %d times for %d start_call()" % (last["stop_calls"], last["start_calls"])))
+                ended_badly = c["outcome"][0] == "raised" and c["outcome"][1] != "runtime"
+                closed_in_loop = c["closed"] and any(s2["aborting"] for s2 in c["snaps"])
+                if (ended_badly or closed_in_loop) and last["aborts"] != first["aborts"] + 1 and first["call_no"] == last["call_no"]:
+                    # first snapshot of the call is taken after ECall, when nothing of this call can have aborted yet
+                    bad.append(("C04" if ended_badly else "C16",
+                                "backend.abort_everything() called %d times for a call that was aborted" % (last["aborts"] - first["aborts"])))
+                if (ended_badly or closed_in_loop) and last["aborts"] == first["aborts"] + 1 and last["ensure_ready"] != last["managed"]:
+                    bad.append(("C04", "abort_everything(ensure_ready=%s) although managed backend = %s" % (last["ensure_ready"], last["managed"])))
+                if not last["managed"] and last["terminates"] != first["terminates"] + 1:
+                    bad.append(("C04", "backend.terminate() called %d times after a call outside a with block" % (last["terminates"] - first["terminates"])))
+                if last["managed"] and last["terminates"] != first["terminates"]:
+                    bad.append(("C04", "backend.terminate() called inside a with block"))
         if tmo is not None:
             for e, obs_k, sn in zip(c["events"], [run["obs"][c["start"] + i] for i in range(len(c["events"]))], c["snaps"]):
                 if e[0] == "timeout" and not any(o[0] == "raised" for o in obs_k) and sn.get("pending_pull"):
